@@ -387,6 +387,7 @@ func checkC20(c *Ctx, r *Report) {
 	// ... and an ID string of any length, zero included, is what the string decoder returned for
 	// the record's own type/length byte (shared with C07, C14)
 	checkIDStringHeader(c, r)
+	checkMinimalEncodings(c, r, func(m minimalEncoding) bool { return m.Type == "FullSensorRecord" })
 	checkDecoderAssignment(c, r, "record-decoder-overwrites", 1, func(n *types.Named) bool { return n.Obj().Name() == "FullSensorRecord" })
 
 	r.Rule("bcd-normal-form", "bcd.Decode(b) = 10·b[7:4] + b[3:0]", 1)
